@@ -30,6 +30,9 @@ func (g *gen) str() string {
 	if r.Intn(10) == 0 {
 		n = 8 + r.Intn(40)
 	}
+	if r.Intn(60) == 0 {
+		n = 200 + r.Intn(120) // around the str8 | str16 boundary (in bytes) of msgpack
+	}
 	var sb strings.Builder
 	for i := 0; i < n; i++ {
 		switch r.Intn(10) {
@@ -65,7 +68,10 @@ func (g *gen) validStrGen() string {
 }
 
 var intGrid = []int64{0, 1, -1, 2, -2, 7, 10, 97, 1 << 31, -(1 << 31), (1 << 53) - 1, 1 << 53, (1 << 53) + 1, -(1 << 53) - 1, -(1 << 53), -(1 << 53) + 1,
-	1 << 62, math.MaxInt64 - 1, math.MaxInt64, math.MinInt64, math.MinInt64 + 1, 1000000000000000000, -999999999999999999}
+	1 << 62, math.MaxInt64 - 1, math.MaxInt64, math.MinInt64, math.MinInt64 + 1, 1000000000000000000, -999999999999999999,
+	// the boundaries between the integer formats of msgpack (fixint, int8/16/32/64, uint8/16/32)
+	-33, -32, -31, 126, 127, 128, 129, -127, -128, -129, 254, 255, 256, 32767, 32768, -32768, -32769, 65535, 65536,
+	(1 << 31) - 1, -(1 << 31) - 1, (1 << 32) - 1, 1 << 32, (1 << 32) + 1, -(1 << 32)}
 
 var floatGrid = []float64{0, math.Copysign(0, -1), 1, -1, 3, 0.5, 1.5, -2.25, 0.1, 1e-7, 123456.789, 1e15, 1e20, 1e21, 1e22, -1e21, 1e300, 5e-324, -5e-324,
 	2.2250738585072014e-308, math.MaxFloat64, -math.MaxFloat64, 1 << 53, (1 << 53) + 2, -(1 << 53), 4611686018427387904, 9223372036854775807, 9223372036854775808,
@@ -98,6 +104,87 @@ func (g *gen) scalarGrid() []*gv {
 	}
 	for c := 1; c < 0x20; c++ {
 		out = append(out, &gv{kind: 'S', raw: true, s: string(rune(c))})
+	}
+	return out
+}
+
+// sized gives values whose sizes sit on the boundaries of the length-prefixed formats of msgpack
+// (fixstr 31|32, str8 255|256, str16 65535|65536; fixarray 15|16, array16 65535|65536; fixmap 15|16
+// entries = 13|14 fields + Atype + zKeyOrder) and around them: strings by BYTE length (with
+// multi-byte code points so that the byte length is not the rune count), as values, keys and
+// type names; arrays; hashes by field count.
+func (g *gen) sized(tier string) []*gv {
+	var out []*gv
+	mk := func(n int, unit string) string {
+		var sb strings.Builder
+		for sb.Len()+len(unit) <= n {
+			sb.WriteString(unit)
+		}
+		for sb.Len() < n {
+			sb.WriteByte('x')
+		}
+		return sb.String()
+	}
+	one := &gv{kind: 'I', i: 1}
+	lens := []int{30, 31, 32, 33, 254, 255, 256, 257, 65535, 65536, 65537}
+	for _, n := range lens {
+		for _, unit := range []string{"a", "é", "日", "😀", "\"", "\n"} {
+			if n > 1000 && unit != "a" && unit != "é" {
+				continue
+			}
+			s := mk(n, unit)
+			out = append(out, &gv{kind: 'S', s: s})
+			if n < 1000 {
+				out = append(out, &gv{kind: 'A', arr: []*gv{{kind: 'S', s: s}, one}},
+					&gv{kind: 'H', tn: "hash", keys: []gkey{{false, s}, {false, "b"}}, vals: []*gv{one, {kind: 'S', s: s}}},
+					&gv{kind: 'H', tn: "hash", keys: []gkey{{true, s}}, vals: []*gv{one}},
+					&gv{kind: 'H', tn: s, keys: []gkey{{false, "a"}}, vals: []*gv{one}})
+			}
+		}
+	}
+	arrLens := []int{14, 15, 16, 17, 31, 32, 255, 256, 257}
+	if tier == "thorough" {
+		arrLens = append(arrLens, 65535, 65536, 65537)
+	} else {
+		arrLens = append(arrLens, 65536)
+	}
+	for _, n := range arrLens {
+		a := &gv{kind: 'A'}
+		for i := 0; i < n; i++ {
+			if n < 1000 {
+				a.arr = append(a.arr, &gv{kind: 'I', i: int64(i)})
+			} else {
+				a.arr = append(a.arr, &gv{kind: 'N'})
+			}
+		}
+		out = append(out, a)
+		if n < 1000 {
+			out = append(out, &gv{kind: 'H', tn: "hash", keys: []gkey{{false, "a"}}, vals: []*gv{a}})
+		}
+	}
+	for _, n := range []int{12, 13, 14, 15, 16, 17, 18, 33, 254, 255, 256, 300} {
+		for _, tn := range []string{"hash", "ranch"} {
+			h := &gv{kind: 'H', tn: tn}
+			for i := 0; i < n; i++ {
+				// names in an order that is not the sorted one
+				h.keys = append(h.keys, gkey{false, fmt.Sprintf("f%d", (i*7+3)%n)})
+				h.vals = append(h.vals, &gv{kind: 'I', i: int64(i)})
+			}
+			seen := map[string]bool{}
+			ok := true
+			for _, k := range h.keys {
+				if seen[k.text] {
+					ok = false
+				}
+				seen[k.text] = true
+			}
+			if !ok { // 7 divides n: fall back to the plain order reversed
+				for i := range h.keys {
+					h.keys[i].text = fmt.Sprintf("f%d", n-1-i)
+				}
+			}
+			out = append(out, h, &gv{kind: 'A', arr: []*gv{h, h}})
+		}
 	}
 	return out
 }
@@ -230,6 +317,9 @@ func (g *gen) value(depth int, _ string) *gv {
 		return g.scalar()
 	case 2, 3, 4:
 		n := r.Intn(4)
+		if r.Intn(15) == 0 {
+			n = 13 + r.Intn(6) // around the fixarray | array16 boundary
+		}
 		v := &gv{kind: 'A'}
 		for i := 0; i < n; i++ {
 			v.arr = append(v.arr, g.value(depth-1, ""))
@@ -252,6 +342,10 @@ func (g *gen) value(depth int, _ string) *gv {
 	if r.Intn(8) == 0 {
 		n = 5 + r.Intn(4)
 	}
+	wide := r.Intn(20) == 0
+	if wide {
+		n = 11 + r.Intn(8) // around the fixmap | map16 boundary (fields + Atype + zKeyOrder)
+	}
 	used := map[string]bool{}
 	for i := 0; i < n; i++ {
 		var k gkey
@@ -259,6 +353,9 @@ func (g *gen) value(depth int, _ string) *gv {
 			k = gkey{true, g.str()}
 		} else {
 			k = gkey{false, g.symKey()}
+			if wide && r.Intn(3) != 0 {
+				k.text = fmt.Sprintf("w%d", r.Intn(40))
+			}
 		}
 		if used[k.text] {
 			continue
